@@ -3,6 +3,25 @@
    property is covered by search over recorded histories, see checks/c04.py).
    Statements only; proofs in Proofs/LinProof.v.
 
+   WHAT IS NOT PROVED.  The section machine has NO LOCKS: a call is a sequence of atomic sections
+   and between two sections of one call ANY call of another thread may run.  The section table
+   read off the source is the table of the sections of the FILESYSTEM lock mu.  Operations on
+   handles (Read, Write, Truncate, Readdirnames, ... of mem.File) never take mu, only the mutex
+   of their file or directory, so in the code they also run INSIDE a section of mu, between two
+   file-mutex sections of a namespace method; the machine with the one-section table does not
+   show those interleavings.  [C04_today_linearizable] is therefore a statement about the
+   sections of mu (every history in which handle operations do not fall inside another call's
+   section of mu), not about every execution of the code.  On the search side these
+   interleavings are explored by the lock-aware mode of the cooperative scheduler (every lock
+   acquisition is a switching point; exhaustive under a preemption bound for fixed window
+   programs; REPORT-lin.md section 9).  It confirmed the three windows repaired earlier (the
+   split switches of Readdirnames and Rename) and found one that is OPEN in today's source:
+   OpenFile with O_APPEND|O_TRUNC seeks and truncates in two sections of the file's mutex inside
+   its one section of mu.  Against handle operations today's OpenFile is the machine with
+   [sc_open_finish] ON although the regenerated switch is off (the translator looks at mu only):
+   [C04_refuted_openfile_append_trunc_write] below replays the recorded history in that machine.
+   Which mutex protects which section against which handle operation stays outside the model.
+
    Vocabulary (Model/Lin.v): a history is a list of calls with invocation/response stamps and
    results; [linearizable step obs s0 hist fin] = some order of ALL calls respects real-time
    precedence and, run one call at a time from s0 on the sequential specification, gives every
@@ -103,6 +122,28 @@ Theorem C04_refuted_openfile_trunc : forall k, sc_open_split k = false -> sc_ope
     lin_check_mem lin_init hist fin = false /\ ~ linearizable lin_step lin_obs lin_init hist fin.
 Proof. exact refuted_openfile_trunc. Qed.
 Print Assumptions C04_refuted_openfile_trunc.
+
+(* The window that is OPEN in today's source (known finding, corpus/C04/openfile-append-trunc-write.case).
+   OpenFile(O_RDWR|O_APPEND|O_TRUNC) on /f = "abcd" ‖ Write of 8 bytes through another handle ‖ then a
+   one-byte Write through the new handle.  In the machine whose OpenFile finishes its handle in
+   separate sections (seek to the end; truncate) the other Write runs between the two: the new
+   handle's offset is 4, the final content 00 00 00 00 4e — the results recorded from the code by
+   the lock-aware scheduler — and no order of the three calls explains them.  The interloper uses a
+   handle only (it does not take mu), which is why the code admits this run although the seek and
+   the truncate lie in one section of mu and [sc_open_finish ln_cfg_today = false]. *)
+Theorem C04_refuted_openfile_append_trunc_write : forall k, sc_open_split k = false -> sc_open_finish k = true ->
+  Forall (fun c : lop => op_handle_of (snd c) <> None) (nth 1 w10_progs []) /\
+  (map (fun x => (lc_op x, lc_res x)) (lg_lin (ln_run k w10_s0 w10_progs w10_sched)) =
+     [((None, HWrite 20 [87; 87; 87; 87; 87; 87; 87; 87]%N), RCount 8 None);
+      ((Some 10%nat, OpenFile w_f w_apptr 412), RHandle 0); ((None, HWrite 10 [78]%N), RCount 1 None)] /\
+   map e_data (lin_obs (lg_st (ln_run k w10_s0 w10_progs w10_sched))) = [[]; [0; 0; 0; 0; 78]%N]) /\
+  exists hist fin, produced_by_sections k w10_s0 hist fin /\
+    lin_check_mem w10_s0 hist fin = false /\ ~ linearizable lin_step lin_obs w10_s0 hist fin.
+Proof.
+  intros k H1 H2. split; [exact w10_writer_handles_only|].
+  split; [now apply refuted_openfile_append_trunc_write_results|now apply refuted_openfile_append_trunc_write].
+Qed.
+Print Assumptions C04_refuted_openfile_append_trunc_write.
 
 (* Rename and the listings through directory handles.  A handle lists its directory under the
    directory's mutex, not under mu, so it can run INSIDE Rename's write-locked section of mu,
@@ -245,7 +286,9 @@ Proof. reflexivity. Qed.
 Print Assumptions C04_today_readdirnames_locked.
 
 (* hence EVERY history of the section machine of today's code — any goroutines, calls, schedule —
-   is linearizable *)
+   is linearizable.  The sections are those of mu: handle operations that run inside another
+   call's section of mu are not behaviours of this machine (see the head of this file and
+   C04_refuted_openfile_append_trunc_write) *)
 (* Rename holds both parents across the move and re-keys the children of a directory under one
    hold of its mutex *)
 Theorem C04_today_rename_directories_held :
